@@ -396,7 +396,7 @@ def startRelB (shift : Nat) (lt : LexTree) (g : Fsg) (s0 s : SState) : Bool :=
 /-- `fsg_search_finish`: `fsg_psubtree_pnode_deactivate` (= `hmm_clear`) on every pnode of the active list
 (`pnode_active_next` is NULL between frames), the lists freed; table and frame counter stay -/
 def finish (lt : LexTree) (s : SState) : SState :=
-  { s with hmms := (Array.range s.hmms.size).map fun p => if p ∈ s.active then Hmm.clear lt.nst else s.hmm p,
+  { s with hmms := ((List.range s.hmms.size).map fun p => if p ∈ s.active then Hmm.clear lt.nst else s.hmm p).toArray,
            active := [] }
 
 end SSVerif.Search
